@@ -1484,4 +1484,22 @@ theorem findLevel_isSome_iff {es : List (Nat × Level)} {n : Nat} : (findLevel e
     · have h' : ¬ n = a.1 := fun e => h e.symm
       simp [h, h']
 
+/-! ### vocabulary of the source translation -/
+
+theorem putGeneAt_name (gs : List (Gene ν)) (x : Gene ν) : putGeneAt gs x.name x = putGene gs x := by
+  induction gs with
+  | nil => rfl
+  | cons h t ih => simp [putGeneAt, putGene, ih]
+
+theorem addAll_gate (xs : List (Gene ν)) : ∀ g : Genome ν,
+    (addAll g xs).allow = g.allow ∧ (addAll g xs).cb = g.cb ∧ (addAll g xs).rate = g.rate := by
+  induction xs with
+  | nil => intro g; exact ⟨rfl, rfl, rfl⟩
+  | cons x rest ih =>
+    intro g
+    obtain ⟨h1, h2, h3⟩ := ih (addGene g x).1
+    have e : (addGene g x).1.allow = g.allow ∧ (addGene g x).1.cb = g.cb ∧ (addGene g x).1.rate = g.rate := by
+      unfold addGene; split <;> exact ⟨rfl, rfl, rfl⟩
+    exact ⟨h1.trans e.1, h2.trans e.2.1, h3.trans e.2.2⟩
+
 end Operon.Genome
